@@ -60,3 +60,17 @@ ARG_FUNCTIONS = [("sievelib.commands", "Command.check_next_arg"), ("sievelib.com
 def static_ob(oid, ok, note="", backend="evaluation"):
     return Ob(oid, "discharged" if ok else "refuted", [backend], 0.0, 1,
               None if ok else {"model": None, "detail": note}, note=note, kind="static")
+
+
+def U(uid, module, func, params=(), setup=None, **meta):
+    return Unit(uid, module, func, params, setup=setup, meta=meta)
+
+
+TRUSTED_ENV_SOCKET = ("socket: sendall(b) appends b to the outbound log of the current connection; recv(n) returns a "
+                      "non-empty prefix (<= n bytes) of what the server has sent, or times out when nothing is left")
+TRUSTED_SERVER = ("RFC 5804 server: answers each complete command with exactly one response (OK / NO / BYE) or falls "
+                  "silent; the script store changes only as the RFC says")
+TRUSTED_B64 = "base64.b64encode: uninterpreted injective function with output over [A-Za-z0-9+/=]"
+ASSUMED_GET_CAPABILITIES = ("ASSUMED contract of Client.__get_capabilities (not verified: its body splits lines of symbolic "
+                            "text): stores each announced known capability with its value, keeps the others, returns "
+                            "False on NO without changes")
